@@ -632,6 +632,11 @@ def _budget_param(f):
 
 
 def _check_scc(ctx, prog, cg, comp):
+    # a helper / closure all of whose uses were expanded in place is judged inside its callers: their inlined bodies contain
+    # its calls (and the recursive ones among them) with the caller's own terms
+    kept = [k for k in comp if cg.def_of(k) not in prog.fully_inlined]
+    if kept and len(kept) < len(comp):
+        comp = kept
     name = comp[0]
     key = "scc:%s" % name
     compset = set(comp)
